@@ -110,16 +110,26 @@ Definition seq_agrees (c : seq_case) : bool :=
   && Nat.eqb (length (rp_conflicts r)) (length (sc_conflicts c)).
 
 (* ---------------------------------------------------------------- DirCleanUpPaths *)
+(* The case carries the FULL listing of the tree as it was when the function was called: every entry
+   with its kind as os.Lstat / os.ReadDir report it.  The function asks one thing about an entry,
+   DirEntry.IsDir(): regular files (hidden or not), symbolic links (to files or to directories) are
+   all "not a directory"; none of them is ever skipped. *)
+Inductive ekind := EFile | EDir | ESymlink.
+Definition ekind_is_dir (k : ekind) : bool := match k with EDir => true | _ => false end.
+
 Record cleanup_case := {
-  cc_files : list str; cc_dirs : list str; cc_roots : list str; cc_target : str;
+  cc_entries : list (str * ekind); cc_roots : list str; cc_target : str;
   cc_got : list str; cc_err : bool }.
 
 Definition unit_fs (files dirs : list str) : fsys unit :=
   {| fs_files := map (fun f => (f, tt)) files; fs_dirs := dirs |}.
 
+Definition entries_fs (es : list (str * ekind)) : fsys unit :=
+  unit_fs (map fst (filter (fun e => negb (ekind_is_dir (snd e))) es))
+          (map fst (filter (fun e => ekind_is_dir (snd e)) es)).
 
 Definition cleanup_agrees (c : cleanup_case) : bool :=
-  match dir_cleanup_paths (unit_fs (cc_files c) (cc_dirs c)) (cc_target c) (cc_roots c) with
+  match dir_cleanup_paths (entries_fs (cc_entries c)) (cc_target c) (cc_roots c) with
   | CwOk ds => negb (cc_err c) && list_str_eqb ds (cc_got c)
   | CwErr => cc_err c
   | CwOutOfFuel => false
